@@ -268,7 +268,8 @@ def run(cx: Cx):
                 continue
             nsite += 1
             inside_execute = kfn is not None and kfn.name == 'execute' and kfn.cls is not None and cx.prog.is_subclass(kfn.cls, sysc)
-            if k.split('#')[0] != sched and not inside_execute:
+            roots = cx.effects.public_roots(kfn) if kfn is not None else set()
+            if k.split('#')[0] != sched and not inside_execute and roots != {sched}:
                 cx.violation('R-GUARD', k, 'systems-run-through-the-scheduler-only',
                              f"{k} calls {tg[0].qualname}() directly: the call bypasses the scheduler's completed-model guard (and its "
                              f"start / end / frequency window), so a system runs on a model that is already complete",
